@@ -225,20 +225,3 @@ Definition P_os (i : input) (o : observation) : bool :=
   else true.
 
 Definition P (i : input) (o : observation) : bool := P_logic i o && P_os i o.
-
-(* ---------------------------------------------------------------- trigger of the finding "conversion response followed by other data" *)
-(* the conversion response file starts with a document the decoder takes, and something other
-   than whitespace follows it: conversion.ResponseFromReader decodes once and never looks at the rest *)
-Definition T_conv (i : input) : bool :=
-  match i_conversion i with
-  | FText s =>
-      match s with
-      | [] => false
-      | _ => match parse_first s with
-             | Some (d, t) => (match decode_struct conversion_schema d with Some _ => true | None => false end)
-                              && negb (all_ws t)
-             | None => false
-             end
-      end
-  | _ => false
-  end.
